@@ -16,6 +16,9 @@ enum FT {
     T,
     /// `&'a f32`: a non-Eq field type that mentions a LIFETIME parameter of the item
     RefF32,
+    /// `W<T>`: mentions the type parameter and is never Eq (PartialEq only); compared by a function or ignored, it must
+    /// not keep `X<u8>` from being Eq
+    WT,
 }
 /// what one of the two attributes (`eq`, `ord`) on a field carries
 #[derive(Clone, Copy, PartialEq, Eq, Debug)]
@@ -69,13 +72,13 @@ fn attr_text(ft: FT, fa: FA) -> Option<String> {
         FT::U8 => ("$ as u16", "$ as f32"),
         FT::F32 => ("$.to_bits()", "$ * 2.0"),
         FT::RefF32 => ("$.to_bits()", "*$ * 2.0"),
-        FT::T => ("", ""),
+        FT::T | FT::WT => ("", ""),
     };
     let one = |name: &str, a: A1| -> Option<String> {
         Some(match a {
             A1::None => String::new(),
             A1::Ignore => format!("#[{name}(ignore)]"),
-            A1::KeyEq | A1::KeyNonEq if ft == FT::T => return None, // no keys on a bare type parameter
+            A1::KeyEq | A1::KeyNonEq if matches!(ft, FT::T | FT::WT) => return None, // no keys on a bare type parameter
             A1::KeyEq => format!("#[{name}(key = {eq_key})]"),
             A1::KeyNonEq => format!("#[{name}(key = {non_eq_key})]"),
             A1::By => {
@@ -109,7 +112,7 @@ fn field_rejects(ft: FT, fa: FA, gmode: GMode) -> bool {
     }
     match ft {
         FT::U8 => false,
-        FT::F32 | FT::RefF32 => true,
+        FT::F32 | FT::RefF32 | FT::WT => true,
         FT::T => gmode != GMode::Default,
     }
 }
@@ -120,11 +123,11 @@ fn gen(ch: &mut Ch, thorough: bool) -> Option<Case> {
     let mut fields = Vec::new();
     let mut dev = 0;
     for _ in 0..n {
-        let ft = *ch.of(&[FT::U8, FT::F32, FT::T, FT::RefF32]);
+        let ft = *ch.of(&[FT::U8, FT::F32, FT::T, FT::RefF32, FT::WT]);
         let mut fa = FA { eq: *ch.of(&A1S), ord: *ch.of(&A1S), peq: A1::None, pord: A1::None };
         let custom = |a: A1| matches!(a, A1::KeyEq | A1::KeyNonEq | A1::By);
         let _ = custom;
-        if ft != FT::T && fa.eq != A1::Ignore && fa.ord != A1::Ignore {
+        if !matches!(ft, FT::T | FT::WT) && fa.eq != A1::Ignore && fa.ord != A1::Ignore {
             fa.peq = *ch.of(&[A1::None, A1::KeyEq, A1::KeyNonEq, A1::By]);
         }
         if ft == FT::U8 && fa.ord == A1::KeyEq && fa.eq == A1::None && fa.peq == A1::None {
@@ -143,7 +146,11 @@ fn gen(ch: &mut Ch, thorough: bool) -> Option<Case> {
         }
         fields.push((ft, fa));
     }
-    let has_t = fields.iter().any(|f| f.0 == FT::T);
+    let has_t = fields.iter().any(|f| matches!(f.0, FT::T | FT::WT));
+    // the never-Eq generic type only under the default bound, next to u8 / T fields
+    if fields.iter().any(|f| f.0 == FT::WT) && fields.iter().any(|f| matches!(f.0, FT::F32 | FT::RefF32)) {
+        return None;
+    }
     // the lifetime-mentioning field type only on its own or next to plain u8 fields without attributes
     if fields.iter().any(|f| f.0 == FT::RefF32) && (has_t || n == 3 || fields.iter().any(|f| f.0 != FT::RefF32 && (f.0 != FT::U8 || f.1 != FA::NONE))) {
         return None;
@@ -152,6 +159,9 @@ fn gen(ch: &mut Ch, thorough: bool) -> Option<Case> {
         return None;
     }
     let gmode = if has_t { *ch.of(&[GMode::Default, GMode::Empty, GMode::PartialEqOnly]) } else { GMode::Default };
+    if gmode != GMode::Default && fields.iter().any(|f| f.0 == FT::WT) {
+        return None;
+    }
     let with_partial_eq = ch.flag();
     // a co-derived (conditional) PartialEq is only meaningful when Eq's impl carries the default bound
     if with_partial_eq && gmode != GMode::Default {
@@ -192,7 +202,8 @@ fn gen(ch: &mut Ch, thorough: bool) -> Option<Case> {
 }
 
 fn program(c: &Case) -> (String, String) {
-    let has_t = c.fields.iter().any(|f| f.0 == FT::T);
+    let has_t = c.fields.iter().any(|f| matches!(f.0, FT::T | FT::WT));
+    let has_wt = c.fields.iter().any(|f| f.0 == FT::WT);
     let has_lt = c.fields.iter().any(|f| f.0 == FT::RefF32);
     let g = if has_t { "<T>" } else if has_lt { "<'a>" } else { "" };
     let fs: Vec<FieldDef> = c.fields.iter().map(|(ft, fa)| {
@@ -201,6 +212,7 @@ fn program(c: &Case) -> (String, String) {
             FT::F32 => "f32",
             FT::RefF32 => "&'a f32",
             FT::T => "T",
+            FT::WT => "W<T>",
         };
         let f = FieldDef::tuple(ty).attr(&attr_text(*ft, *fa).unwrap());
         if c.with_hash { f.attr("#[hash(ignore)]") } else { f }
@@ -230,6 +242,13 @@ fn program(c: &Case) -> (String, String) {
     s.push_str(&format!("{head}\npub {}\n", item.print()));
     if !c.with_partial_eq {
         s.push_str(&format!("impl{g} ::core::cmp::PartialEq for X{g} {{ fn eq(&self, _: &Self) -> bool {{ true }} }}\n"));
+    }
+    if has_wt {
+        s.push_str("pub struct W<T>(pub T);\nimpl<T> ::core::cmp::PartialEq for W<T> { fn eq(&self, _: &Self) -> bool { true } }\n");
+    }
+    if has_t {
+        // the instantiation with an Eq argument must BE Eq (a generic definition alone compiles whatever its where-clause says)
+        s.push_str("const _: fn() = || { fn is_eq<E: ::core::cmp::Eq>() {} is_eq::<X<u8>>(); };\n");
     }
     (s, format!("{head} {}", item.print()))
 }
@@ -289,10 +308,10 @@ pub fn run(ctx: &Ctx, rep: &mut Report) {
     }
     // "can never silently become Eq": an accepted type with a co-derived `==` and a float field is executed on
     // NaN values - `==` must be reflexive on them (the float is ignored, compared by `by`, or through an Eq key)
-    let probe_idx: Vec<usize> = (0..cases.len()).filter(|&i| !predicted[i] && cases[i].with_partial_eq && !cases[i].fields.iter().any(|f| f.0 == FT::T) && cases[i].fields.iter().any(|f| matches!(f.0, FT::F32 | FT::RefF32))).collect();
+    let probe_idx: Vec<usize> = (0..cases.len()).filter(|&i| !predicted[i] && cases[i].with_partial_eq && !cases[i].fields.iter().any(|f| matches!(f.0, FT::T | FT::WT)) && cases[i].fields.iter().any(|f| matches!(f.0, FT::F32 | FT::RefF32))).collect();
     let probes: Vec<runner::Case> = probe_idx.iter().map(|&i| {
         let c = &cases[i];
-        let vals: Vec<String> = c.fields.iter().map(|f| match f.0 { FT::U8 => "1u8", FT::F32 => "f32::NAN", FT::RefF32 => "&f32::NAN", FT::T => unreachable!() }.to_string()).collect();
+        let vals: Vec<String> = c.fields.iter().map(|f| match f.0 { FT::U8 => "1u8", FT::F32 => "f32::NAN", FT::RefF32 => "&f32::NAN", FT::T | FT::WT => unreachable!() }.to_string()).collect();
         let ctor = match c.container {
             0 => format!("X({})", vals.join(", ")),
             1 => format!("X {{ {} }}", vals.iter().enumerate().map(|(k, v)| format!("{}: {v}", fname(k))).collect::<Vec<_>>().join(", ")),
